@@ -1,95 +1,182 @@
-(* Proofs about Model/Progress.v (C16). *)
-From Coq Require Import Lia ZArith.
-From Clikit Require Import Base.Prelude Base.Res Base.Term Model.Conv Model.Progress Proofs.TermLemmas.
+(* Proofs about Model/Progress.v (C16): the state (step, maximum, throttle, what draws), the bar segment, quiet and
+   plain outputs.  The frames written are the subject of Proofs/ProgressFrameLemmas.v. *)
+From Coq Require Import Lia ZArith Arith.
+From Clikit Require Import Base.Prelude Base.Res Base.Term Model.Conv Model.Markup Model.Section Model.Progress
+  Proofs.TermLemmas Proofs.MarkupLemmas Proofs.SectionLemmas.
 Local Open Scope Z_scope.
 
 Definition range (p : pbar) : Prop := 0 <= p_step p /\ 0 <= p_max p /\ (0 < p_max p -> p_step p <= p_max p).
 
-(* ---------- display / overwrite / with_fmt do not touch the progress ---------- *)
-Lemma with_fmt_progress p : p_step (with_fmt p) = p_step p /\ p_max (with_fmt p) = p_max p /\ p_ansi (with_fmt p) = p_ansi p
-  /\ p_quiet (with_fmt p) = p_quiet p /\ p_last_write (with_fmt p) = p_last_write p.
-Proof. unfold with_fmt. destruct (p_fmt p); cbn; auto. Qed.
-Lemma overwrite_progress p now m : p_step (fst (overwrite p now m)) = p_step p /\ p_max (fst (overwrite p now m)) = p_max p.
-Proof. cbn. auto. Qed.
-Lemma display_progress p now : p_step (fst (display p now)) = p_step p /\ p_max (fst (display p now)) = p_max p.
+Lemma bind_ok {X Y} (r : res X) (f : X -> res Y) y : bind r f = Ok y -> exists x, r = Ok x /\ f x = Ok y.
+Proof. destruct r; cbn; [eauto|discriminate]. Qed.
+Ltac bind_inv H x Hx := apply bind_ok in H; destruct H as (x & Hx & H).
+
+(* ---------- what a call leaves of the bar: only the output (formatter, sections) moves under a write ---------- *)
+Lemma set_out_id p : set_out p (p_f p) (p_secs p) = p.
+Proof. destruct p; reflexivity. Qed.
+
+Lemma out_write_shape p t nl p' es : out_write p t nl = Ok (p', es) -> exists f st, p' = set_out p f st.
 Proof.
-  unfold display. destruct (p_quiet p); [cbn; auto|]. cbn [fst overwrite p_step p_max].
-  destruct (with_fmt_progress p) as (H1 & H2 & _). auto.
+  unfold out_write. destruct (p_quiet p).
+  { intros H. inversion H; subst. exists (p_f p'), (p_secs p'). now rewrite set_out_id. }
+  destruct (p_section p).
+  { intros H. bind_inv H x Hx. inversion H; subst. eauto. }
+  destruct (p_ansi p); intros H; bind_inv H x Hx; inversion H; subst; eauto.
+Qed.
+Lemma out_clear_shape p n p' es : out_clear p n = Ok (p', es) -> exists f st, p' = set_out p f st.
+Proof.
+  unfold out_clear. destruct (p_quiet p).
+  { intros H. inversion H; subst. exists (p_f p'), (p_secs p'). now rewrite set_out_id. }
+  intros H. bind_inv H x Hx. inversion H; subst. eauto.
 Qed.
 
-Definition sp_max (p : pbar) (k : Z) : Z := if (0 <? p_max p) && (p_max p <? k) then k else p_max p.
-Definition sp_step (p : pbar) (k : Z) : Z := if (0 <? p_max p) && (p_max p <? k) then k else if k <? 0 then 0 else k.
-Definition sp_state (p : pbar) (k : Z) : pbar := with_progress p (sp_max p k) (sp_step p k).
+Lemma overwrite_shape p now m p' es : overwrite p now m = Ok (p', es) ->
+  exists f st ll, p' = set_written (set_out p f st) ll now.
+Proof.
+  unfold overwrite. intros H. bind_inv H pl Hpl. bind_inv H pre Hpre. bind_inv H wr Hwr. bind_inv H mv Hmv.
+  inversion H; subst; clear H.
+  assert (exists f st, fst pre = set_out p f st) as (f1 & st1 & E1).
+  { cbn [p_ansi p_section set_out] in Hpre. destruct (p_ansi p).
+    - destruct (p_section p).
+      + destruct pre as [q e]. apply out_clear_shape in Hpre as (f & st & ->). eexists _, _. reflexivity.
+      + inversion Hpre; subst. eexists _, _. reflexivity.
+    - inversion Hpre; subst. eexists _, _. reflexivity. }
+  destruct wr as [q e]. apply out_write_shape in Hwr as (f2 & st2 & E2). cbn [fst snd] in *. subst q. rewrite E1.
+  eexists _, _, _. reflexivity.
+Qed.
+
+Lemma with_fmt_fields p :
+  p_step (with_fmt p) = p_step p /\ p_max (with_fmt p) = p_max p /\ p_ansi (with_fmt p) = p_ansi p /\
+  p_quiet (with_fmt p) = p_quiet p /\ p_last_write (with_fmt p) = p_last_write p /\ p_section (with_fmt p) = p_section p /\
+  p_drawn (with_fmt p) = p_drawn p /\ p_secs (with_fmt p) = p_secs p /\ p_f (with_fmt p) = p_f p /\
+  p_write_count (with_fmt p) = p_write_count p /\ p_last_len (with_fmt p) = p_last_len p /\ p_w (with_fmt p) = p_w p.
+Proof. unfold with_fmt. destruct (p_fmt p); cbn; repeat split. Qed.
+
+(* display: nothing on a quiet output; otherwise one _overwrite of the state with its format fixed *)
+Lemma display_cases p now p' es : display p now = Ok (p', es) ->
+  (p_quiet p = true /\ p' = p /\ es = []) \/
+  (p_quiet p = false /\ exists f st ll,
+     p' = set_drawn (set_written (set_out (with_fmt p) f st) ll now) (Some (p_step p, p_max p))).
+Proof.
+  unfold display. destruct (p_quiet p).
+  { intros H. inversion H. auto. }
+  intros H. right. split; [reflexivity|]. bind_inv H fr Hfr. bind_inv H x Hx. inversion H; subst; clear H.
+  destruct x as [q e]. apply overwrite_shape in Hx as (f & st & ll & ->). cbn [fst]. eexists _, _, _. reflexivity.
+Qed.
+Lemma display_progress p now p' es : display p now = Ok (p', es) ->
+  p_step p' = p_step p /\ p_max p' = p_max p /\ p_quiet p' = p_quiet p /\ p_ansi p' = p_ansi p /\ p_section p' = p_section p.
+Proof.
+  intros H. destruct (with_fmt_fields p) as (H1 & H2 & H3 & H4 & _ & H6 & _).
+  apply display_cases in H as [(_ & -> & _)|(_ & f & st & ll & ->)]; cbn; auto.
+Qed.
+
+(* ---------- set_progress: the three cases ---------- *)
+Lemma sp_state_fields p k :
+  p_step (sp_state p k) = sp_step p k /\ p_max (sp_state p k) = sp_max p k /\ p_quiet (sp_state p k) = p_quiet p /\
+  p_ansi (sp_state p k) = p_ansi p /\ p_section (sp_state p k) = p_section p /\ p_last_write (sp_state p k) = p_last_write p /\
+  p_secs (sp_state p k) = p_secs p /\ p_f (sp_state p k) = p_f p.
+Proof. unfold sp_state. destruct (0 <? sp_max p k); cbn; repeat split. Qed.
+
 Lemma set_progress_cases p now k :
   (sp_step p k = sp_max p k /\ set_progress p now k = display (sp_state p k) now) \/
-  (sp_step p k <> sp_max p k /\ (now - p_last_write p) * p_min_den p < p_min_num p * 1000 /\ set_progress p now k = (sp_state p k, [])) \/
+  (sp_step p k <> sp_max p k /\ (now - p_last_write p) * p_min_den p < p_min_num p * 1000 /\
+   set_progress p now k = Ok (sp_state p k, [])) \/
   (sp_step p k <> sp_max p k /\ p_min_num p * 1000 <= (now - p_last_write p) * p_min_den p /\
-   (set_progress p now k = display (sp_state p k) now \/ set_progress p now k = (sp_state p k, []))).
+   (set_progress p now k = display (sp_state p k) now \/ set_progress p now k = Ok (sp_state p k, []))).
 Proof.
-  unfold set_progress. fold (sp_max p k) (sp_step p k) (sp_state p k).
+  unfold set_progress. fold (sp_max p k) (sp_step p k). fold (sp_state p k).
   destruct (Z.eqb_spec (sp_step p k) (sp_max p k)) as [E|E]; [left; auto|right].
   destruct (Z.ltb_spec ((now - p_last_write p) * p_min_den p) (p_min_num p * 1000)); [left; auto|right].
   split; [exact E|]. split; [lia|].
-  destruct (negb (period p (sp_max p k) (p_step p) =? period p (sp_max p k) (sp_step p k)) || (p_max_ms p <=? now - p_last_write p)); auto.
+  destruct (negb (period p (sp_max p k) (p_step p) =? period p (sp_max p k) (sp_step p k))
+            || (p_maxs_num p * 1000 <=? (now - p_last_write p) * p_maxs_den p)); auto.
 Qed.
 Lemma sp_state_range p k : range p -> range (sp_state p k).
 Proof.
-  intros (H0 & H1 & H2). unfold range, sp_state, with_progress, sp_max, sp_step; cbn [p_step p_max].
+  intros (H0 & H1 & H2). unfold range. destruct (sp_state_fields p k) as (-> & -> & _). unfold sp_max, sp_step.
   destruct (Z.ltb_spec 0 (p_max p)), (Z.ltb_spec (p_max p) k), (Z.ltb_spec k 0); cbn [andb]; lia.
 Qed.
 
-Lemma set_progress_range p now k : range p -> range (fst (set_progress p now k)).
+Lemma display_range q now p' es : display q now = Ok (p', es) -> range q -> range p'.
+Proof. intros H Hq. unfold range. destruct (display_progress q now p' es H) as (-> & -> & _). exact Hq. Qed.
+
+Lemma set_progress_range p now k p' es : set_progress p now k = Ok (p', es) -> range p -> range p'.
 Proof.
-  intros Hr. pose proof (sp_state_range p k Hr) as H1.
-  assert (forall q, range q -> range (fst (display q now))) as Hd.
-  { intros q Hq. unfold range. destruct (display_progress q now) as [-> ->]. exact Hq. }
-  destruct (set_progress_cases p now k) as [[_ ->]|[(_ & _ & ->)|(_ & _ & [->| ->])]]; auto.
+  intros H Hr. pose proof (sp_state_range p k Hr) as H1.
+  destruct (set_progress_cases p now k) as [[_ E]|[(_ & _ & E)|(_ & _ & [E|E])]]; rewrite E in H.
+  - eapply display_range; eauto.
+  - inversion H; subst. exact H1.
+  - eapply display_range; eauto.
+  - inversion H; subst. exact H1.
 Qed.
 
-Lemma pstep_range p now o : range p -> range (fst (pstep p now o)).
+Lemma finish_state_range p : range p -> range (finish_state p).
 Proof.
-  intros Hr. destruct o as [mx|k|k| | |]; cbn [pstep].
-  - unfold range. match goal with |- context [display ?q now] => destruct (display_progress q now) as [-> ->] end.
-    destruct Hr as (H0 & H1 & H2). destruct mx as [m|]; unfold set_max_steps, with_progress; cbn [p_step p_max]; lia.
-  - apply set_progress_range, Hr.
-  - apply set_progress_range, Hr.
-  - unfold range. destruct (display_progress p now) as [-> ->]. exact Hr.
-  - destruct (negb (p_ansi p)); [exact Hr|]. unfold range. cbn [fst overwrite p_step p_max].
-    destruct (with_fmt_progress p) as (-> & -> & _). exact Hr.
-  - set (p1 := if p_max p =? 0 then with_progress p (p_step p) (p_step p) else p).
-    assert (range p1) as H1.
-    { unfold p1. destruct (Z.eqb_spec (p_max p) 0); [|exact Hr]. destruct Hr as (H0 & _). unfold range; cbn. lia. }
-    match goal with |- context [if ?c then (p1, []) else _] => destruct c end; [exact H1|]. apply set_progress_range, H1.
+  intros Hr. unfold finish_state. destruct (Z.eqb_spec (p_max p) 0); [|exact Hr].
+  destruct Hr as (H0 & _). unfold range; cbn. lia.
 Qed.
 
-Lemma new_range ansi quiet v mx bw mn md cu msg now : range (pb_new ansi quiet v mx bw mn md cu msg now).
-Proof. unfold range, pb_new, set_max_steps; cbn. lia. Qed.
+Lemma pstep_range p now o p' es : pstep p now o = Ok (p', es) -> range p -> range p'.
+Proof.
+  intros H Hr. destruct o as [mx|k|k| | | |m|t]; cbn [pstep] in H.
+  - eapply display_range; [exact H|]. destruct Hr as (H0 & H1 & H2).
+    destruct mx as [m|]; unfold range, set_max_steps, with_progress; cbn; lia.
+  - eapply set_progress_range; eauto.
+  - eapply set_progress_range; eauto.
+  - eapply display_range; eauto.
+  - destruct (negb (p_ansi p)); [inversion H; subst; exact Hr|].
+    apply overwrite_shape in H as (f & st & ll & ->). unfold range. cbn.
+    destruct (with_fmt_fields p) as (-> & -> & _). exact Hr.
+  - fold (finish_state p) in H. pose proof (finish_state_range p Hr) as H1.
+    match type of H with (if ?c then _ else _) = _ => destruct c end.
+    + inversion H; subst. exact H1.
+    + eapply set_progress_range; eauto.
+  - inversion H; subst. exact Hr.
+  - destruct (p_section p); [|inversion H; subst; exact Hr]. bind_inv H x Hx. inversion H; subst. exact Hr.
+Qed.
+
+Lemma new_range ansi quiet sec w f st v mx bw mn md xn xd rf pc cu msg now :
+  range (pb_new ansi quiet sec w f st v mx bw mn md xn xd rf pc cu msg now).
+Proof. unfold range, pb_new, set_max_steps, set_steps; cbn. lia. Qed.
 
 (* ---------- the bar segment is exactly as wide as configured ---------- *)
 Lemma repeat_len {X} (c : X) n : length (repeat c n) = n.
 Proof. apply repeat_length. Qed.
+Lemma pow2_pos k : 0 <= k -> 0 < pow2 k.
+Proof. intros H. unfold pow2. apply Z.pow_pos_nonneg; lia. Qed.
 
-Lemma bar_offset_bounds p : range p -> 0 < p_bar_width p -> 0 <= p_write_count p ->
-  0 <= bar_offset p <= p_bar_width p.
+Lemma nomax_offset_bounds bw wc : 0 < bw -> 0 <= nomax_offset bw wc < bw.
 Proof.
-  intros (H0 & H1 & H2) Hw Hc. unfold bar_offset.
+  intros Hw. unfold nomax_offset. destruct (75 <=? bw); [apply Z.mod_pos_bound; lia|].
+  set (m := fst (dbl_round (fst (dbl_round bw 15) * wc) 1)).
+  set (e := snd (dbl_round (fst (dbl_round bw 15) * wc) 1) + snd (dbl_round bw 15)).
+  destruct (Z.ltb_spec e 0) as [He|He]; [|apply Z.mod_pos_bound; lia].
+  pose proof (pow2_pos (- e) ltac:(lia)) as Hp.
+  pose proof (Z.mod_pos_bound m (bw * pow2 (- e)) ltac:(nia)) as Hb.
+  split; [apply Z.div_pos; lia|]. apply Z.div_lt_upper_bound; lia.
+Qed.
+
+Lemma bar_offset_bounds p : range p -> 0 < p_bar_width p -> 0 <= bar_offset p <= p_bar_width p.
+Proof.
+  intros (H0 & H1 & H2) Hw. unfold bar_offset.
   destruct (Z.ltb_spec 0 (p_max p)) as [Hm|Hm].
   - specialize (H2 Hm). split; [apply Z.div_pos; nia|].
     apply Z.div_le_upper_bound; nia.
   - destruct (p_redraw_freq p).
     + pose proof (Z.mod_pos_bound (p_step p) (p_bar_width p) Hw). lia.
-    + set (num := if 75 <=? p_bar_width p then 75 else p_bar_width p).
-      pose proof (Z.mod_pos_bound (num * p_write_count p) (15 * p_bar_width p) ltac:(lia)) as Hb.
-      split; [apply Z.div_pos; lia|]. apply Z.div_le_upper_bound; lia.
+    + pose proof (nomax_offset_bounds (p_bar_width p) (p_write_count p) Hw). lia.
 Qed.
 
-Lemma render_bar_width p : range p -> 0 < p_bar_width p -> 0 <= p_write_count p ->
-  length (render_bar p) = Z.to_nat (p_bar_width p).
+(* with a progress character of one visible cell (pc: its visible text) the bar segment has bar_width cells *)
+Lemma render_bar_with_width p (pc : str) : range p -> 0 < p_bar_width p -> length pc = 1%nat ->
+  length (render_bar_with p pc 1) = Z.to_nat (p_bar_width p).
 Proof.
-  intros Hr Hw Hc. pose proof (bar_offset_bounds p Hr Hw Hc) as Hb. unfold render_bar, sp.
+  intros Hr Hw Hpc. pose proof (bar_offset_bounds p Hr Hw) as Hb. unfold render_bar_with, bar_full, sp.
   rewrite app_length, repeat_len.
-  destruct (Z.ltb_spec (bar_offset p) (p_bar_width p)); cbn [length]; [rewrite repeat_len|]; lia.
+  destruct (Z.ltb_spec (bar_offset p) (p_bar_width p)); cbn [negb length]; [rewrite app_length, repeat_len, Hpc|]; lia.
 Qed.
+Lemma render_bar_width p : range p -> 0 < p_bar_width p -> length (render_bar p) = Z.to_nat (p_bar_width p).
+Proof. intros Hr Hw. apply render_bar_with_width; auto. Qed.
 
 (* the shown percentage: floor(100 * step / max), between 0 and 100, and 100 exactly at the maximum *)
 Lemma percent_bounds p : range p -> 0 < p_max p -> 0 <= p_step p * 100 / p_max p <= 100.
@@ -98,181 +185,214 @@ Proof.
 Qed.
 Lemma percent_at_max p : 0 < p_max p -> p_step p = p_max p -> p_step p * 100 / p_max p = 100.
 Proof. intros Hm ->. rewrite Z.mul_comm. apply Z.div_mul. lia. Qed.
+Lemma percent_100_only_at_max p : range p -> 0 < p_max p -> p_step p * 100 / p_max p = 100 -> p_step p = p_max p.
+Proof.
+  intros (H0 & H1 & H2) Hm E. specialize (H2 Hm).
+  pose proof (Z.mul_div_le (p_step p * 100) (p_max p) Hm) as H. rewrite E in H. nia.
+Qed.
 
 (* ---------- quiet outputs receive nothing; plain outputs no control codes ---------- *)
-Lemma display_quiet p now : p_quiet p = true -> snd (display p now) = [].
-Proof. intros H. unfold display. now rewrite H. Qed.
-Lemma set_progress_quiet p now k : p_quiet p = true -> snd (set_progress p now k) = [] /\ p_quiet (fst (set_progress p now k)) = true.
+Lemma out_write_quiet p t nl : p_quiet p = true -> out_write p t nl = Ok (p, []).
+Proof. intros H. unfold out_write. now rewrite H. Qed.
+
+Lemma overwrite_quiet p now m p' es : p_quiet p = true -> overwrite p now m = Ok (p', es) -> es = [].
 Proof.
-  intros H. assert (p_quiet (sp_state p k) = true) as H1 by exact H.
-  assert (snd (display (sp_state p k) now) = [] /\ p_quiet (fst (display (sp_state p k) now)) = true) as Hd.
-  { unfold display. rewrite H1. auto. }
-  destruct (set_progress_cases p now k) as [[_ ->]|[(_ & _ & ->)|(_ & _ & [->| ->])]]; auto.
-Qed.
-Lemma pstep_quiet p now o : p_quiet p = true -> snd (pstep p now o) = [].
-Proof.
-  intros H. destruct o as [mx|k|k| | |]; cbn [pstep].
-  - unfold display. destruct mx; cbn; rewrite H; reflexivity.
-  - apply set_progress_quiet, H.
-  - apply set_progress_quiet, H.
-  - apply display_quiet, H.
-  - destruct (negb (p_ansi p)); [reflexivity|]. cbn [snd overwrite].
-    destruct (with_fmt_progress p) as (_ & _ & _ & -> & _). now rewrite H.
-  - match goal with |- context [if ?c then with_progress p ?a ?b else p] => set (p1 := if c then with_progress p a b else p) end.
-    assert (p_quiet p1 = true) as H1 by (unfold p1; destruct (p_max p =? 0); exact H).
-    match goal with |- context [if ?c then (p1, []) else _] => destruct c end; [reflexivity|]. apply set_progress_quiet, H1.
+  intros Hq H. unfold overwrite in H. bind_inv H pl Hpl. bind_inv H pre Hpre. bind_inv H wr Hwr. bind_inv H mv Hmv.
+  inversion H; subst; clear H.
+  assert (snd pre = [] /\ p_quiet (fst pre) = true) as [E1 Q1].
+  { cbn [p_ansi p_section p_quiet set_out] in Hpre. rewrite Hq in Hpre. destruct (p_ansi p).
+    - destruct (p_section p).
+      + unfold out_clear in Hpre. cbn [p_quiet set_out] in Hpre. rewrite Hq in Hpre. inversion Hpre; subst. cbn. auto.
+      + inversion Hpre; subst. cbn. auto.
+    - inversion Hpre; subst. cbn. auto. }
+  rewrite (out_write_quiet _ _ _ Q1) in Hwr. inversion Hwr; subst. cbn. now rewrite E1.
 Qed.
 
-Definition plain_emit (e : emit) : bool := match e with Ch _ | Nl => true | _ => false end.
+Lemma display_quiet p now : p_quiet p = true -> display p now = Ok (p, []).
+Proof. intros H. unfold display. now rewrite H. Qed.
+Lemma set_progress_quiet p now k p' es : p_quiet p = true -> set_progress p now k = Ok (p', es) -> es = [] /\ p_quiet p' = true.
+Proof.
+  intros Hq H. destruct (sp_state_fields p k) as (_ & _ & Q & _). rewrite Hq in Q.
+  destruct (set_progress_cases p now k) as [[_ E]|[(_ & _ & E)|(_ & _ & [E|E])]]; rewrite E in H;
+    try (rewrite (display_quiet _ _ Q) in H); inversion H; subst; auto.
+Qed.
+(* every call of the bar (the write to the section below is not one) *)
+Definition bar_call (o : pop) : Prop := match o with OBelow _ => False | _ => True end.
+Lemma pstep_quiet p now o p' es : p_quiet p = true -> bar_call o -> pstep p now o = Ok (p', es) -> es = [].
+Proof.
+  intros Hq Hb H. destruct o as [mx|k|k| | | |m|t]; cbn [pstep] in H.
+  - rewrite display_quiet in H; [inversion H; reflexivity|]. destruct mx; exact Hq.
+  - eapply set_progress_quiet; eauto.
+  - eapply set_progress_quiet; eauto.
+  - rewrite (display_quiet _ _ Hq) in H. now inversion H.
+  - destruct (negb (p_ansi p)); [now inversion H|]. eapply overwrite_quiet; [|exact H].
+    destruct (with_fmt_fields p) as (_ & _ & _ & -> & _). exact Hq.
+  - fold (finish_state p) in H.
+    assert (p_quiet (finish_state p) = true) as Q by (unfold finish_state; destruct (p_max p =? 0); exact Hq).
+    match type of H with (if ?c then _ else _) = _ => destruct c end; [now inversion H|].
+    eapply set_progress_quiet; eauto.
+  - now inversion H.
+  - contradiction.
+Qed.
+
 Lemma emits_plain s : forallb plain_emit (emits_of_text s) = true.
-Proof. unfold emits_of_text. induction s as [|c r IH]; cbn; [reflexivity|]. destruct (N.eqb c LF); cbn; exact IH. Qed.
-Lemma overwrite_plain p now m : p_ansi p = false -> forallb plain_emit (snd (overwrite p now m)) = true.
+Proof. apply emits_of_text_plain. Qed.
+Lemma sstep_plain_emits st f o r : sstep_plain st f o = Ok r -> forallb plain_emit (snd r) = true.
 Proof.
-  intros H. cbn [snd overwrite]. rewrite H. destruct (p_quiet p); [reflexivity|].
-  rewrite forallb_app, emits_plain, andb_true_r. destruct (_ <? _)%Z; reflexivity.
+  intros H. pose proof (plain_degrades_lemma 1 [o] st f (fst (fst r), snd (fst r), snd r ++ [])) as P.
+  cbn [srun] in P. rewrite H in P. cbn [bind fst snd srun] in P. specialize (P eq_refl). cbn [snd] in P.
+  now rewrite app_nil_r in P.
 Qed.
-Lemma display_plain p now : p_ansi p = false -> forallb plain_emit (snd (display p now)) = true.
+Lemma out_write_plain p t nl p' es : p_ansi p = false -> out_write p t nl = Ok (p', es) -> forallb plain_emit es = true.
 Proof.
-  intros H. unfold display. destruct (p_quiet p); [reflexivity|]. apply overwrite_plain.
-  destruct (with_fmt_progress p) as (_ & _ & -> & _). exact H.
+  intros Ha H. unfold out_write in H. destruct (p_quiet p); [now inversion H|]. rewrite Ha in H. destruct (p_section p).
+  - bind_inv H x Hx. inversion H; subst. apply sstep_plain_emits in Hx. exact Hx.
+  - bind_inv H x Hx. inversion H; subst. rewrite forallb_app, emits_plain. destruct nl; reflexivity.
 Qed.
-Lemma set_progress_plain p now k : p_ansi p = false -> forallb plain_emit (snd (set_progress p now k)) = true.
+Lemma overwrite_plain p now m p' es : p_ansi p = false -> overwrite p now m = Ok (p', es) -> forallb plain_emit es = true.
 Proof.
-  intros H. assert (p_ansi (sp_state p k) = false) as H1 by exact H.
-  destruct (set_progress_cases p now k) as [[_ ->]|[(_ & _ & ->)|(_ & _ & [->| ->])]]; try reflexivity; apply display_plain, H1.
+  intros Ha H. unfold overwrite in H. bind_inv H pl Hpl. bind_inv H pre Hpre. bind_inv H wr Hwr. bind_inv H mv Hmv.
+  inversion H; subst; clear H. cbn [p_ansi set_out] in Hpre. rewrite Ha in Hpre. inversion Hpre; subst; clear Hpre.
+  cbn [fst snd] in *. rewrite forallb_app. apply Bool.andb_true_iff. split.
+  - cbn [p_quiet p_write_count set_out]. destruct (p_quiet p); [reflexivity|]. destruct (0 <? p_write_count p); reflexivity.
+  - destruct wr as [q e]. eapply out_write_plain; [|exact Hwr]. exact Ha.
 Qed.
-Lemma pstep_plain p now o : p_ansi p = false -> forallb plain_emit (snd (pstep p now o)) = true.
+Lemma display_plain p now p' es : p_ansi p = false -> display p now = Ok (p', es) -> forallb plain_emit es = true.
 Proof.
-  intros H. destruct o as [mx|k|k| | |]; cbn [pstep].
-  - apply display_plain. destruct mx; exact H.
-  - apply set_progress_plain, H.
-  - apply set_progress_plain, H.
-  - apply display_plain, H.
-  - rewrite H. reflexivity.
-  - match goal with |- context [if ?c then with_progress p ?a ?b else p] => set (p1 := if c then with_progress p a b else p) end.
-    assert (p_ansi p1 = false) as H1 by (unfold p1; destruct (p_max p =? 0); exact H).
-    match goal with |- context [if ?c then (p1, []) else _] => destruct c end; [reflexivity|]. apply set_progress_plain, H1.
+  intros Ha H. unfold display in H. destruct (p_quiet p); [now inversion H|].
+  bind_inv H fr Hfr. bind_inv H x Hx. inversion H; subst. destruct x as [q e]. eapply overwrite_plain; [|exact Hx].
+  cbn. destruct (with_fmt_fields p) as (_ & _ & -> & _). exact Ha.
+Qed.
+Lemma set_progress_plain p now k p' es : p_ansi p = false -> set_progress p now k = Ok (p', es) -> forallb plain_emit es = true.
+Proof.
+  intros Ha H. destruct (sp_state_fields p k) as (_ & _ & _ & A & _). rewrite Ha in A.
+  destruct (set_progress_cases p now k) as [[_ E]|[(_ & _ & E)|(_ & _ & [E|E])]]; rewrite E in H;
+    try (eapply display_plain; eassumption); now inversion H.
+Qed.
+Lemma pstep_plain p now o p' es : p_ansi p = false -> pstep p now o = Ok (p', es) -> forallb plain_emit es = true.
+Proof.
+  intros Ha H. destruct o as [mx|k|k| | | |m|t]; cbn [pstep] in H.
+  - eapply display_plain; [|exact H]. destruct mx; exact Ha.
+  - eapply set_progress_plain; eauto.
+  - eapply set_progress_plain; eauto.
+  - eapply display_plain; eauto.
+  - rewrite Ha in H. now inversion H.
+  - fold (finish_state p) in H.
+    assert (p_ansi (finish_state p) = false) as A by (unfold finish_state; destruct (p_max p =? 0); exact Ha).
+    match type of H with (if ?c then _ else _) = _ => destruct c end; [now inversion H|].
+    eapply set_progress_plain; eauto.
+  - now inversion H.
+  - destruct (p_section p); [|now inversion H]. rewrite Ha in H. bind_inv H x Hx. inversion H; subst.
+    apply sstep_plain_emits in Hx. exact Hx.
 Qed.
 
 (* ---------- throttling; reaching the maximum and finishing always draw ---------- *)
-Lemma display_draws p now : p_quiet p = false -> p_ansi p = true -> snd (display p now) <> [].
+(* an output the bar can draw on: not quiet, and (on a section output) the bar's section exists *)
+Definition drawable (p : pbar) : Prop := p_quiet p = false /\ (p_section p = true -> p_secs p <> []).
+
+Lemma out_write_draws p t nl p' es : drawable p -> p_ansi p = true -> p_section p = true ->
+  out_write p t nl = Ok (p', es) -> es <> [].
 Proof.
-  intros Hq Ha. unfold display. rewrite Hq. cbn [snd overwrite].
-  destruct (with_fmt_progress p) as (_ & _ & -> & -> & _). rewrite Hq, Ha. discriminate.
+  intros (Hq & Hs) Ha Hsec H. unfold out_write in H. rewrite Hq, Hsec, Ha in H. bind_inv H x Hx. inversion H; subst.
+  cbn [sstep_ansi] in Hx. destruct (p_secs p) as [|s r] eqn:Est; [now specialize (Hs Hsec)|]. cbn [nth_error] in Hx.
+  bind_inv Hx m Hm. bind_inv Hx a Ha'. bind_inv Hx b Hb. inversion Hx; subst. cbn [snd].
+  intros E. apply app_eq_nil in E as [_ E]. apply app_eq_nil in E as [_ E]. discriminate.
+Qed.
+
+Lemma clear0_secs w st f n x : sstep_ansi w st f (SClear 0 n) = Ok x -> st <> [] -> fst (fst x) <> [].
+Proof.
+  intros H Hne. cbn [sstep_ansi] in H. destruct st as [|s r]; [contradiction|]. cbn [nth_error] in H.
+  destruct (sc_content s).
+  - inversion H; subst. cbn. discriminate.
+  - bind_inv H kr Hkr. destruct kr as [[keep rc] f1]. bind_inv H y Hy. inversion H; subst. cbn. discriminate.
+Qed.
+Lemma out_clear_secs p n p' es : out_clear p n = Ok (p', es) -> p_secs p <> [] -> p_secs p' <> [].
+Proof.
+  unfold out_clear. destruct (p_quiet p); intros H Hne; [inversion H; subst; exact Hne|].
+  bind_inv H x Hx. inversion H; subst. cbn. eapply clear0_secs; eauto.
+Qed.
+
+Lemma overwrite_draws p now m p' es : drawable p -> p_ansi p = true -> overwrite p now m = Ok (p', es) -> es <> [].
+Proof.
+  intros (Hq & Hs) Ha H. unfold overwrite in H. bind_inv H pl Hpl. bind_inv H pre Hpre. bind_inv H wr Hwr. bind_inv H mv Hmv.
+  inversion H; subst; clear H. cbn [p_ansi p_section p_quiet set_out] in Hpre. rewrite Ha, Hq in Hpre.
+  destruct (p_section p) eqn:Hsec.
+  - destruct pre as [q e]. pose proof (out_clear_secs _ _ _ _ Hpre (Hs eq_refl)) as Hst.
+    destruct (out_clear_shape _ _ _ _ Hpre) as (f & st & ->). cbn [p_secs set_out] in Hst.
+    destruct wr as [q2 e2]. cbn [fst snd] in *.
+    assert (e2 <> []) as He2.
+    { eapply out_write_draws; [| | |exact Hwr]; cbn; auto. split; cbn; auto. }
+    intros E. apply app_eq_nil in E as [_ E]. contradiction.
+  - inversion Hpre; subst. cbn [snd]. discriminate.
+Qed.
+
+Lemma display_draws p now p' es : drawable p -> p_ansi p = true -> display p now = Ok (p', es) -> es <> [].
+Proof.
+  intros (Hq & Hs) Ha H. unfold display in H. rewrite Hq in H. bind_inv H fr Hfr. bind_inv H x Hx. inversion H; subst.
+  destruct x as [q e]. destruct (with_fmt_fields p) as (_ & _ & A & Q & _ & S & _ & T & _).
+  eapply overwrite_draws; [| |exact Hx]; cbn; [|now rewrite A].
+  split; cbn; [now rewrite Q|]. rewrite S, T. exact Hs.
 Qed.
 
 (* a redraw caused by advancing that does not reach the maximum is at least the minimum interval after the previous write *)
-Lemma throttle_lemma p now k :
-  snd (set_progress p now k) <> [] -> p_step (fst (set_progress p now k)) <> p_max (fst (set_progress p now k)) ->
-  p_min_num p * 1000 <= (now - p_last_write p) * p_min_den p.
+Lemma throttle_lemma p now k p' es : set_progress p now k = Ok (p', es) ->
+  es <> [] -> p_step p' <> p_max p' -> p_min_num p * 1000 <= (now - p_last_write p) * p_min_den p.
 Proof.
-  destruct (set_progress_cases p now k) as [[E ->]|[(_ & _ & ->)|(_ & Hi & _)]].
-  - intros _ Hne. exfalso. apply Hne. destruct (display_progress (sp_state p k) now) as [-> ->]. exact E.
-  - intros H. contradiction H. reflexivity.
-  - intros _ _. exact Hi.
+  intros H Hne Hsm. destruct (sp_state_fields p k) as (S1 & S2 & _).
+  destruct (set_progress_cases p now k) as [[E0 E]|[(_ & _ & E)|(_ & Hi & _)]]; [rewrite E in H..|exact Hi].
+  - exfalso. apply Hsm. destruct (display_progress _ _ _ _ H) as (-> & -> & _). now rewrite S1, S2.
+  - inversion H; subst. contradiction.
 Qed.
 
-Lemma reaching_max_draws p now k :
-  p_quiet p = false -> p_ansi p = true ->
-  p_step (fst (set_progress p now k)) = p_max (fst (set_progress p now k)) -> snd (set_progress p now k) <> [].
+Lemma reaching_max_draws p now k p' es : drawable p -> p_ansi p = true -> set_progress p now k = Ok (p', es) ->
+  p_step p' = p_max p' -> es <> [].
 Proof.
-  intros Hq Ha.
-  assert (p_step (sp_state p k) = sp_step p k /\ p_max (sp_state p k) = sp_max p k) as [Hs Hm] by (split; reflexivity).
-  destruct (set_progress_cases p now k) as [[E ->]|[(E & _ & ->)|(E & _ & [->| ->])]].
-  - intros _. apply display_draws; assumption.
-  - cbn [fst]. rewrite Hs, Hm. intros H. contradiction.
-  - intros _. apply display_draws; assumption.
-  - cbn [fst]. rewrite Hs, Hm. intros H. contradiction.
+  intros (Hq & Hs) Ha H Hsm. destruct (sp_state_fields p k) as (S1 & S2 & Q & A & Sec & _ & St & _).
+  assert (drawable (sp_state p k)) as Hd by (split; [now rewrite Q|now rewrite Sec, St]).
+  rewrite <- A in Ha.
+  destruct (set_progress_cases p now k) as [[E0 E]|[(E0 & _ & E)|(E0 & _ & [E|E])]]; rewrite E in H.
+  - eapply display_draws; eauto.
+  - inversion H; subst. rewrite S1, S2 in Hsm. contradiction.
+  - eapply display_draws; eauto.
+  - inversion H; subst. rewrite S1, S2 in Hsm. contradiction.
 Qed.
 
-Lemma finish_lemma p now : p_quiet p = false -> p_ansi p = true -> range p ->
-  let r := pstep p now OFinish in
-  snd r <> [] /\ p_step (fst r) = p_max (fst r).
+Lemma finish_lemma p now p' es : drawable p -> p_ansi p = true -> range p -> pstep p now OFinish = Ok (p', es) ->
+  es <> [] /\ p_step p' = p_max p'.
 Proof.
-  intros Hq Ha (H0 & H1 & H2). cbn [pstep].
-  set (p1 := if p_max p =? 0 then with_progress p (p_step p) (p_step p) else p).
-  assert (p_ansi p1 = true /\ p_quiet p1 = false /\ 0 <= p_max p1) as (Ha1 & Hq1 & Hm1).
-  { unfold p1. destruct (Z.eqb_spec (p_max p) 0); cbn; auto. }
-  rewrite Ha1. cbn [negb]. rewrite andb_false_r.
+  intros (Hq & Hs) Ha Hr H. cbn [pstep] in H. fold (finish_state p) in H.
+  pose proof (finish_state_range p Hr) as (_ & Hm1 & _).
+  assert (p_ansi (finish_state p) = true /\ drawable (finish_state p)) as (Ha1 & Hd1).
+  { unfold finish_state, drawable. destruct (p_max p =? 0); cbn; auto. }
+  rewrite Ha1 in H. cbn [negb] in H. rewrite Bool.andb_false_r in H. cbn [andb] in H.
+  set (p1 := finish_state p) in *.
   assert (sp_step p1 (p_max p1) = sp_max p1 (p_max p1)) as E.
-  { unfold sp_step, sp_max. rewrite Z.ltb_irrefl, andb_false_r. destruct (Z.ltb_spec (p_max p1) 0); [lia|reflexivity]. }
-  destruct (set_progress_cases p1 now (p_max p1)) as [[_ ->]|[(Hn & _)|(Hn & _)]]; try contradiction.
-  split; [apply display_draws; assumption|].
-  destruct (display_progress (sp_state p1 (p_max p1)) now) as [-> ->]. exact E.
+  { unfold sp_step, sp_max. rewrite Z.ltb_irrefl, Bool.andb_false_r. destruct (Z.ltb_spec (p_max p1) 0); [lia|reflexivity]. }
+  destruct (sp_state_fields p1 (p_max p1)) as (S1 & S2 & Q & A & Sec & _ & St & _).
+  destruct (set_progress_cases p1 now (p_max p1)) as [[_ E1]|[(Hn & _)|(Hn & _)]]; try contradiction.
+  rewrite E1 in H. split.
+  - eapply display_draws; [| |exact H]; [|now rewrite A]. destruct Hd1 as (Q1 & T1). split; [now rewrite Q|now rewrite Sec, St].
+  - destruct (display_progress _ _ _ _ H) as (-> & -> & _). now rewrite S1, S2.
 Qed.
 
-(* ---------- on an ANSI terminal a single-line frame replaces the previous one without residue ---------- *)
-Close Scope Z_scope.
-Section Line.
-Variable w : nat.
-Hypothesis w_pos : 1 <= w.
-
-Lemma put_cell_over pre c rest : put_cell (pre ++ rest) (length pre) c = pre ++ c :: tl rest.
-Proof. induction pre as [|x pre IH]; cbn; [destruct rest; reflexivity|]. now rewrite IH. Qed.
-
-(* writing s from column |pre| over a row pre ++ rest with |rest| <= |s| leaves pre ++ s *)
-Lemma feed_over : forall s R pre rest, length rest <= length s -> length pre + length s <= w ->
-  feed w {| rows := R ++ [pre ++ rest]; cr := length R; cc := length pre |} (map Ch s)
-  = {| rows := R ++ [pre ++ s ++ skipn (length s) rest]; cr := length R; cc := length pre + length s |}.
+(* finishing on ANY output that is not quiet: the last frame display() wrote is the frame of the maximum (on an output
+   that is not overwritten it may be the one written when the maximum was reached: it is not written twice) *)
+Lemma finish_last_frame p now p' es : p_quiet p = false -> range p -> pstep p now OFinish = Ok (p', es) ->
+  p_step p' = p_max p' /\ p_drawn p' = Some (p_max p', p_max p').
 Proof.
-  induction s as [|c s IH]; intros R pre rest Hr Hw.
-  - destruct rest; [|cbn in Hr; lia]. cbn [map length skipn app]. unfold feed. cbn [fold_left].
-    rewrite !app_nil_r, Nat.add_0_r. reflexivity.
-  - cbn [map]. unfold feed. cbn [fold_left]. unfold feed1 at 2. cbn [cc cr rows].
-    assert (Nat.eqb (length pre) w = false) as -> by (apply Nat.eqb_neq; cbn in Hw; lia).
-    rewrite upd_row_last, put_cell_over.
-    replace (pre ++ c :: tl rest) with ((pre ++ [c]) ++ tl rest) by (now rewrite <- app_assoc).
-    replace (S (length pre)) with (length (pre ++ [c])) by (rewrite app_length; cbn; lia).
-    fold (feed w {| rows := R ++ [(pre ++ [c]) ++ tl rest]; cr := length R; cc := length (pre ++ [c]) |} (map Ch s)).
-    rewrite IH.
-    + assert (length (pre ++ [c]) + length s = length pre + length (c :: s)) as -> by (rewrite app_length; cbn; lia).
-      assert ((pre ++ [c]) ++ s ++ skipn (length s) (tl rest) = pre ++ (c :: s) ++ skipn (length (c :: s)) rest) as ->.
-      { rewrite <- app_assoc. cbn [app length]. destruct rest; [now rewrite !skipn_nil|reflexivity]. }
-      reflexivity.
-    + destruct rest; cbn in *; lia.
-    + rewrite app_length. cbn in *. lia.
-Qed.
-
-Lemma line_replaced R r s c : length r <= length s -> length s <= w ->
-  feed w {| rows := R ++ [r]; cr := length R; cc := c |} (Cr :: map Ch s) = {| rows := R ++ [s]; cr := length R; cc := length s |}.
-Proof.
-  intros Hr Hs. unfold feed. cbn [fold_left feed1 rows cr].
-  pose proof (feed_over s R [] r Hr ltac:(cbn; lia)) as H. cbn [app length] in H. unfold feed in H. rewrite H.
-  rewrite skipn_all2 by lia. now rewrite app_nil_r.
-Qed.
-End Line.
-
-Definition nolf (l : str) : Prop := Forall (fun c => N.eqb c LF = false) l.
-Lemma emits_nolf l : nolf l -> emits_of_text l = map Ch l.
-Proof. unfold emits_of_text. induction 1 as [|c r Hc Hr IH]; cbn; [reflexivity|]. now rewrite Hc, IH. Qed.
-Lemma split_nl_nolf l : nolf l -> split_nl l = [l].
-Proof. induction 1 as [|c r Hc Hr IH]; cbn; [reflexivity|]. now rewrite Hc, IH. Qed.
-
-Definition padded (p : pbar) (msg : str) : str :=
-  if Nat.ltb (length msg) (p_last_len p) then msg ++ sp SPACE (p_last_len p - length msg) else msg.
-Lemma padded_len p msg : p_last_len p <= length (padded p msg).
-Proof.
-  unfold padded. destruct (Nat.ltb_spec (length msg) (p_last_len p)); [|lia].
-  rewrite app_length. unfold sp. rewrite repeat_length. lia.
-Qed.
-Lemma padded_nolf p msg : nolf msg -> nolf (padded p msg).
-Proof.
-  intros H. unfold padded. destruct (Nat.ltb (length msg) (p_last_len p)); [|exact H].
-  apply Forall_app. split; [exact H|]. unfold sp. apply Forall_forall. intros x Hx. apply repeat_spec in Hx. now subst.
-Qed.
-
-(* one redraw of a single-line frame on an ANSI output: whatever shorter-or-equal text the line held, it now
-   holds exactly the (padded) frame, and the recorded length is the length on screen *)
-Lemma ansi_redraw_lemma w p now msg R r c :
-  1 <= w -> p_ansi p = true -> p_quiet p = false -> p_flc p = 0 -> nolf msg ->
-  length r <= p_last_len p -> length (padded p msg) <= w ->
-  feed w {| rows := R ++ [r]; cr := length R; cc := c |} (snd (overwrite p now msg))
-    = {| rows := R ++ [padded p msg]; cr := length R; cc := length (padded p msg) |} /\
-  p_last_len (fst (overwrite p now msg)) = length (padded p msg).
-Proof.
-  intros Hw Ha Hq Hf Hn Hr Hl. cbn [snd fst overwrite p_last_len]. rewrite Ha, Hq, Hf, (split_nl_nolf msg Hn).
-  cbn [map join_nl fold_left app Nat.max].
-  change (if length msg <? p_last_len p then msg ++ sp SPACE (p_last_len p - length msg) else msg) with (padded p msg).
-  rewrite (emits_nolf _ (padded_nolf p msg Hn)). split; [|reflexivity].
-  apply line_replaced; try assumption; pose proof (padded_len p msg); lia.
+  intros Hq Hr H. cbn [pstep] in H. fold (finish_state p) in H.
+  pose proof (finish_state_range p Hr) as (_ & Hm1 & _).
+  assert (p_quiet (finish_state p) = false) as Hq1 by (unfold finish_state; destruct (p_max p =? 0); exact Hq).
+  set (p1 := finish_state p) in *.
+  match type of H with (if ?c then _ else _) = _ => destruct c eqn:Ec end.
+  - injection H as Ep Ee. rewrite <- Ep. apply Bool.andb_true_iff in Ec as [Ec Ed]. apply Bool.andb_true_iff in Ec as [Ec _].
+    apply Z.eqb_eq in Ec. split; [exact Ec|]. destruct (p_drawn p1) as [[s m]|]; [|discriminate].
+    apply Bool.andb_true_iff in Ed as [E1 E2]. apply Z.eqb_eq in E1, E2. now rewrite E1, E2, Ec.
+  - assert (sp_step p1 (p_max p1) = sp_max p1 (p_max p1)) as E.
+    { unfold sp_step, sp_max. rewrite Z.ltb_irrefl, Bool.andb_false_r. destruct (Z.ltb_spec (p_max p1) 0); [lia|reflexivity]. }
+    assert (sp_max p1 (p_max p1) = p_max p1) as Em by (unfold sp_max; now rewrite Z.ltb_irrefl, Bool.andb_false_r).
+    destruct (sp_state_fields p1 (p_max p1)) as (S1 & S2 & Q & _).
+    destruct (set_progress_cases p1 now (p_max p1)) as [[_ E1]|[(Hn & _)|(Hn & _)]]; try contradiction.
+    rewrite E1 in H. apply display_cases in H as [(Hqq & _)|(_ & f & st & ll & ->)]; [congruence|].
+    cbn. destruct (with_fmt_fields (sp_state p1 (p_max p1))) as (-> & -> & _). rewrite S1, S2, E, Em. auto.
 Qed.
